@@ -581,7 +581,21 @@ def explore(tier, seed):
                 divergence.append(sig)
                 continue
         violations.append(Violation(PROP, sig, detail[:500], {"e2e": True, "cfg": [cfg[0], cfg[1], [list(b) if isinstance(b, tuple) else b for b in cfg[2]], list(cfg[3])], "sig": sig}, len(cfg[2])))
+    # result files combined while several workers are allowed: every interleaving (<= 1 preemption, line granularity in
+    # codemodder.result) of whatever tasks the loaders and the per-file stage create delivers every finding
+    from . import c11a
+
+    r = c11a.explore_cached("defectdojo-pages", "line", 1)
+    sched_cov = {"executions": r["executions"], "distinct_outcomes": len(r["outcomes"]), "tasks": r["root"]["tasks"]}
+    ref = r["details"][r["root"]["hash"]]
+    if any(b"yaml.load(open('c.yml'))" in v for v in ref["tree"].values() if isinstance(v, bytes)):
+        raise core.HarnessError("the sequential run of the DefectDojo pages driver does not fix every reported file")
+    if len(r["outcomes"]) != 1:
+        alt = [ch for h, ch in r["outcomes"].items() if h != r["root"]["hash"]][0]
+        sig = "schedule|defectdojo-pages|findings-reaching-the-codemod-depend-on-interleaving"
+        violations.append(Violation(PROP, sig, f"{len(r['outcomes'])} distinct outcomes over {r['executions']} schedules of a run with two DefectDojo result files and 2 workers; e.g. schedule {alt[:30]}", {"schedule": "defectdojo-pages", "choices": alt, "sig": sig}, 1))
     coverage = {
+        "schedules_defectdojo_pages": sched_cov,
         "states": len(fams) * len(CLASSES) + fn + len(ecfgs),
         "transitions": merges + fn + len(ecfgs),
         "traces_validated_against_impl": merges + fn + len(ecfgs),
@@ -606,6 +620,12 @@ def explore(tier, seed):
 
 def replay(rp):
     drive.init_inproc()
+    if rp.get("schedule"):
+        from . import c11a
+
+        _, h1, _ = c11a.run_once(rp["schedule"], rp["choices"], "line")
+        _, h0, _ = c11a.run_once(rp["schedule"], [], "line")
+        return (h1 == h0), f"schedule {rp['choices'][:40]} -> outcome {h1}; sequential schedule -> {h0}"
     if rp.get("algebra"):
         return replay_algebra(rp)
     if rp.get("formats"):
